@@ -116,6 +116,7 @@ func c02Write(v Version, human bool, seekable bool, user, owner string, variant 
 	chains := [][]Filter{nil, {FilterFlate{}}, {FilterASCII85{}}, {FilterASCIIHex{}}, {FilterRunLength{}}, {FilterLZW{}},
 		{FilterASCII85{}, FilterFlate{}}, {FilterASCIIHex{}, FilterRunLength{}}, {FilterFlate{Predictor: FlatePredictorPNGUp, Columns: 5}}, {FilterLZW{Predictor: FlatePredictorTIFF, Columns: 5}}}
 	sizes := []int{0, 1, 5, 1023, 1024, 1025, 3000}
+	var queued []c02Stream
 	for i, ch := range chains {
 		if v < V1_2 && len(ch) > 0 {
 			continue
@@ -149,6 +150,18 @@ func c02Write(v Version, human bool, seekable bool, user, owner string, variant 
 			if err := put(w.Alloc(), Dict{"During": Integer(i), "S": String("put while a stream was open")}); err != nil {
 				return nil, fmt.Errorf("Put during stream: %w", err)
 			}
+			if i%2 == 0 {
+				// ... also when the queued object is itself a stream, between two others
+				qdata := []byte("a stream object queued while another stream was open\n")
+				qref := w.Alloc()
+				if err := w.Put(qref, NewStream(Dict{"Idx": Integer(1000 + i), "Note": String("a string in the stream dictionary"), "Deep": Dict{"S": Array{String("nested \x00(")}}}, qdata)); err != nil {
+					return nil, fmt.Errorf("Put of a stream during stream: %w", err)
+				}
+				queued = append(queued, c02Stream{qref, Dict{"Idx": Integer(1000 + i), "Note": String("a string in the stream dictionary"), "Deep": Dict{"S": Array{String("nested \x00(")}}}, nil, qdata})
+				if err := put(w.Alloc(), Integer(i)); err != nil {
+					return nil, fmt.Errorf("Put during stream: %w", err)
+				}
+			}
 		}
 		// chunked writes
 		for off := 0; off < len(data); {
@@ -168,6 +181,8 @@ func c02Write(v Version, human bool, seekable bool, user, owner string, variant 
 			return nil, fmt.Errorf("OpenStream modified the caller's dict: %v", dict)
 		}
 		doc.streams = append(doc.streams, c02Stream{ref, dict, ch, data})
+		doc.streams = append(doc.streams, queued...)
+		queued = nil
 	}
 	doc.unused = append(doc.unused, w.Alloc())
 	if err := put(b, Integer(42)); err != nil {
@@ -288,6 +303,54 @@ func TestB2C02RoundTrip(t *testing.T) {
 				}
 			}
 			if doc.userPwd == doc.ownerPwd {
+				break
+			}
+		}
+	}
+	t.Logf("B2-CASES %d", cases)
+}
+
+// TestB2C02ManyCompressed: more objects in one WriteCompressed call than one object stream
+// may hold for the reader; a sample of them (first, last, both sides of every multiple of
+// 10000) must read back.
+func TestB2C02ManyCompressed(t *testing.T) {
+	cases := 0
+	for _, n := range []int{9999, 10000, 10001, 20003} {
+		cases++
+		var buf bytes.Buffer
+		w, err := NewWriter(&buf, V1_7, nil)
+		if err != nil {
+			t.Fatal(err)
+		}
+		a := w.Alloc()
+		w.GetMeta().Catalog.Pages = a
+		w.Put(a, Dict{"Type": Name("Pages"), "Kids": Array{}, "Count": Integer(0)})
+		refs := make([]Reference, n)
+		objs := make([]Object, n)
+		for i := range refs {
+			refs[i] = w.Alloc()
+			objs[i] = Array{Integer(i), String(fmt.Sprintf("object number %d with some text to keep the cross-reference data in proportion", i))}
+		}
+		if err := w.WriteCompressed(refs, objs...); err != nil {
+			t.Errorf("B2-FAIL many-compressed n=%d: WriteCompressed: %v", n, err)
+			continue
+		}
+		if err := w.Close(); err != nil {
+			t.Errorf("B2-FAIL many-compressed n=%d: Close: %v", n, err)
+			continue
+		}
+		r, err := NewReader(bytes.NewReader(buf.Bytes()), int64(buf.Len()), nil)
+		if err != nil {
+			t.Errorf("B2-FAIL many-compressed n=%d: open: %v", n, err)
+			continue
+		}
+		for _, i := range []int{0, 1, 9998, 9999, 10000, 10001, 19999, 20000, 20001, n - 2, n - 1} {
+			if i < 0 || i >= n {
+				continue
+			}
+			got, err := r.Get(refs[i], true)
+			if err != nil || !Equal(got, objs[i]) {
+				t.Errorf("B2-FAIL many-compressed n=%d: object %d of the call reads back as %v (%v)", n, i, AsString(got), err)
 				break
 			}
 		}
